@@ -105,6 +105,15 @@ def build_model(sc, therm=None, temperature_entry="setter"):
             se = StrainEnergy()
             se.setConstantElasticEnergy(p["strain"])
             m.setStrainEnergy(se, phase=nm)
+    opts = sc.get("options") or {}
+    if "betaBinary" in opts:
+        m.setBetaBinary(opts["betaBinary"])
+    if "effectiveDiffusion" in opts:
+        m.enableEffectiveDiffusionDistance(opts["effectiveDiffusion"])
+    if "theta" in opts:
+        m.setTheta(opts["theta"])
+    for child, parents in (opts.get("parents") or {}).items():
+        m.setParentPhases(child, parents)
     pb = sc["pbm"]
     m.setPBMParameters(cMin=pb["cmin"], cMax=pb["cmax"], bins=pb["bins"], minBins=pb["minBins"], maxBins=pb["maxBins"], adaptive=pb.get("adaptive", True))
     if sc.get("constraints"):
